@@ -110,6 +110,22 @@ pub fn spinning_in_op(tid: u32, pth: libc::pthread_t) -> Option<String> {
     }
 }
 
+/// If non-zero: the next outermost operation single-steps itself from its first instruction and runs the nested
+/// operation list at the k-th one (see `istep`); the window ends at the operation's first hook arrival.
+pub static STEP_FROM_START: AtomicU64 = AtomicU64::new(0);
+
+fn step_nested(_k: u64, _rip: usize) {
+    nested_call(0, 0, 0);
+}
+
+#[inline]
+fn step_begin() {
+    let k = STEP_FROM_START.swap(0, Ordering::SeqCst);
+    if k != 0 {
+        crate::istep::arm(k, 20_000, step_nested);
+    }
+}
+
 #[inline]
 pub fn do_send(ch: &Channel<Val>, v: Val) -> u64 {
     let id = v.id;
@@ -117,6 +133,7 @@ pub fn do_send(ch: &Channel<Val>, v: Val) -> u64 {
     if LOG.load(Ordering::Relaxed) {
         evlog::log(kind::CALL, OP_SEND, id);
     }
+    step_begin();
     ch.send(v);
     if LOG.load(Ordering::Relaxed) {
         evlog::log(kind::RET, OP_SEND, id);
@@ -131,6 +148,7 @@ pub fn do_recv(ch: &Channel<Val>) -> Option<u64> {
     if LOG.load(Ordering::Relaxed) {
         evlog::log(kind::CALL, OP_RECV, 0);
     }
+    step_begin();
     let r = ch.recv();
     op_end();
     let id = r.as_ref().map(|v| v.id);
@@ -403,6 +421,26 @@ pub fn run_history(cfg: &HistCfg) -> HistOut {
             Some(id) => drained.push(id),
             None => break,
         }
+    }
+    if leave == 0 {
+        // The channel is empty and nobody else is inside: all five slots must be usable again (a slot index that is
+        // in neither queue would show here as a send discarded with fewer than five values outstanding).
+        let mut probe = Vec::new();
+        for _ in 0..5 {
+            probe.push(do_send(&ch, Val::new(cfg.heap)));
+        }
+        let mut back = Vec::new();
+        while let Some(id) = do_recv(&ch) {
+            back.push(id);
+            if back.len() > 8 {
+                break;
+            }
+        }
+        if back != probe {
+            out.problems.push(format!("CAPACITY with the channel empty and every thread joined, five sends {:?} came back as {:?}", probe, back));
+        }
+        out.sent.push(probe);
+        drained.extend(back);
     }
     out.drained = drained;
     if LOG.load(Ordering::Relaxed) {
